@@ -93,8 +93,8 @@ def gen_cases(rng, ctx):
         session([1, http2, 0, 1], [(t, HEADERS[0]) for t in TARGETS] + [(t, HEADERS[3]) for t in TARGETS], "corpus:all-targets-unauthenticated-" + name, front)
         session([1, http2, 0, 1], [(TARGETS[0], HEADERS[0]), (TARGETS[0], HEADERS[1]), (TARGETS[0], HEADERS[0]), (TARGETS[3], HEADERS[3]), (TARGETS[5], HEADERS[10])],
                 "corpus:accepted-then-refused-" + name, front)
-    # (through the door only: a TLS client library lower-cases the server name it sends)
-    for front, http2 in ((0, 0), (0, 1)):
+    # (through the door and the QUIC listener: the TLS client library lower-cases the server name it sends, the QUIC one does not)
+    for front, http2 in ((0, 0), (0, 1), (3, 1)):
         session([2, http2, 3, 1], [(TARGETS[0], HEADERS[0]), (TARGETS[2], HEADERS[0]), (TARGETS[0], HEADERS[1])], "corpus:sni-credentials-in-another-case", front)
     n = 260 if thorough else 70
     for i in range(n):
@@ -105,7 +105,7 @@ def gen_cases(rng, ctx):
             h = rng.choice(HEADERS) if rng.chance(2, 3) else rng.choice(HEADERS[:5])
             reqs.append((t, h))
         front = [0, 1, 3][i % 3]
-        if cfg[2] == 3 and front != 0:
+        if cfg[2] == 3 and front == 1:
             cfg[2] = 2
         session(cfg, reqs, "session:auth%d-%s-sni%d" % (cfg[0], "h3" if front == 3 else "h%d" % (2 if cfg[1] else 1), cfg[2]), front)
     return cases
